@@ -78,6 +78,7 @@ def make_plan(tree, seed, i, tier="quick"):
 
     env = {
         "listdir": {UNITS_DIR: _listdir_spec(rng), CONSTANTS_DIR: _listdir_spec(rng)},
+        "listdir_default": _listdir_spec(rng),
         "extra_entries": {},
         "clock": list(rng.choice(CLOCKS)),
         "git": rng.choice(GIT_OK),
@@ -206,7 +207,7 @@ def spine(tree, seed):
             "run": "spine-%d" % n,
             "hashseed": HASHSEEDS[n % len(HASHSEEDS)],
             "selection": dict(sel, version_id="spine", opt_order=["units", "constants", "noio", "version"]),
-            "env": {"listdir": {}, "extra_entries": {}, "clock": ["2026-09-26T12:00:00"], "git": "ok:spine", "stdout_mode": "block", "stdout_bufsize": 4096},
+            "env": {"listdir": {}, "listdir_default": _listdir_spec(rng), "extra_entries": {}, "clock": ["2026-09-26T12:00:00"], "git": "ok:spine", "stdout_mode": "block", "stdout_bufsize": 4096},
             "faults": [],
             "toolchain": {"a": list(a), "b": list(b), "b_variant": ("single", "multi")[n % 2]} if a != b else {"a": list(a)},
             "probe": {"include_order": rng.randrange(1 << 30), "api": apisurface.sample(rng)},
@@ -313,7 +314,7 @@ def matrix_plans(tree, seed, tier):
             "run": "matrix-%d" % i,
             "hashseed": HASHSEEDS[i % len(HASHSEEDS)],
             "selection": {"units": units, "constants": consts, "io": True, "main_files": [], "version_id": "matrix", "opt_order": ["units", "constants", "noio", "version"]},
-            "env": {"listdir": {}, "extra_entries": {}, "clock": ["2026-09-26T12:00:00"], "git": "ok:matrix", "stdout_mode": "block", "stdout_bufsize": 4096, "crlf": False},
+            "env": {"listdir": {}, "listdir_default": _listdir_spec(rng), "extra_entries": {}, "clock": ["2026-09-26T12:00:00"], "git": "ok:matrix", "stdout_mode": "block", "stdout_bufsize": 4096, "crlf": False},
             "faults": [],
             "toolchain": {"a": list(tcs[i % len(tcs)]), "matrix": True},
             "probe": {"include_order": rng.randrange(1 << 30), "api": apisurface.names()},
@@ -335,7 +336,7 @@ def singles(tree, seed):
                 "run": "single-%s" % name,
                 "hashseed": HASHSEEDS[n % len(HASHSEEDS)],
                 "selection": {"units": [name] if kind == "units" else [], "constants": [name] if kind == "constants" else [], "io": bool(n % 2), "main_files": [], "version_id": "single", "opt_order": ["units", "constants", "noio", "version"]},
-                "env": {"listdir": {}, "extra_entries": {}, "clock": ["2026-09-26T12:00:00"], "git": "ok:single", "stdout_mode": "block", "stdout_bufsize": 4096, "crlf": False},
+                "env": {"listdir": {}, "listdir_default": _listdir_spec(rng), "extra_entries": {}, "clock": ["2026-09-26T12:00:00"], "git": "ok:single", "stdout_mode": "block", "stdout_bufsize": 4096, "crlf": False},
                 "faults": [],
                 "toolchain": {"a": list(tcs[n % len(tcs)])},
                 "probe": {"include_order": rng.randrange(1 << 30), "api": []},
